@@ -38,8 +38,8 @@ def union_domain_text(ks):
 
 
 def agent_problem(k, ks):
-    return (f"(define (problem pr) (:domain ma) (:objects ag{k} - agent shared - item t{k} - tool{k})\n"
-            f"(:init (free ag{k}) (avail shared) (own{k} ag{k}) (avail t{k}) (= (cnt) 0) (= (load{k} ag{k}) {k}))\n"
+    return (f"(define (problem pr) (:domain ma) (:objects ag{k} - agent shared shared2 - item t{k} t{k}b t{k}c - tool{k})\n"
+            f"(:init (free ag{k}) (avail shared) (avail shared2) (own{k} ag{k}) (avail t{k}) (avail t{k}b) (avail t{k}c) (= (cnt) 0) (= (load{k} ag{k}) {k}))\n"
             f"(:goal (and (avail shared) (own{k} ag{k}) (>= (cnt) 1) (>= (load{k} ag{k}) {k}))))")
 
 
@@ -127,11 +127,12 @@ class Combine(Harness):
             if rp[0] != "ok":
                 return [Failure(clause="agent problems are combined", expected="problem", observed=rp)]
             pv = V.v_problem(rp[1])
-            eo = {"shared": "item"}
+            eo = {"shared": "item", "shared2": "item"}
             ef, efl, eg, egn = set(), {}, set(), set()
             for k in ks:
-                eo.update({f"ag{k}": "agent", f"t{k}": f"tool{k}"})
-                ef |= {("free", (f"ag{k}",)), ("avail", ("shared",)), (f"own{k}", (f"ag{k}",)), ("avail", (f"t{k}",))}
+                eo.update({f"ag{k}": "agent", f"t{k}": f"tool{k}", f"t{k}b": f"tool{k}", f"t{k}c": f"tool{k}"})
+                ef |= {("free", (f"ag{k}",)), ("avail", ("shared",)), ("avail", ("shared2",)), (f"own{k}", (f"ag{k}",)), ("avail", (f"t{k}",)),
+                       ("avail", (f"t{k}b",)), ("avail", (f"t{k}c",))}
                 efl.update({("cnt", ()): 0.0, (f"load{k}", (f"ag{k}",)): float(k)})
                 eg |= {("avail", ("shared",)), (f"own{k}", (f"ag{k}",))}
                 egn |= {str(("cmp", ">=", ("fl", "cnt", ()), ("num", 1.0))), str(("cmp", ">=", ("fl", f"load{k}", (f"ag{k}",)), ("num", float(k))))}
